@@ -188,7 +188,7 @@ def _cases():
 
 
 def t_generate(rec, seed, tier, shard):
-    n = 1500 if tier == "quick" else 60000
+    n = 4000 if tier == "quick" else 60000
 
     def body(case):
         rec.ev()
@@ -232,7 +232,7 @@ def t_leading_zero(rec, seed, tier):
 def t_key_forms(rec, seed, tier):
     from hypothesis import strategies as st
 
-    n = 600 if tier == "quick" else 8000
+    n = 2000 if tier == "quick" else 8000
     deco = st.fixed_dictionaries({
         "lower": st.booleans(), "typo": st.booleans(), "sep": st.sampled_from(["", "", " ", "-", "  ", "- "]), "strip_pad": st.booleans(),
         "upper_hex": st.booleans(), "as_bytes": st.booleans(),
@@ -254,7 +254,7 @@ def t_key_forms(rec, seed, tier):
 def t_rekey(rec, seed, tier):
     from hypothesis import strategies as st
 
-    n = 300 if tier == "quick" else 4000
+    n = 1000 if tier == "quick" else 4000
     cases = st.fixed_dictionaries({
         "keys": st.lists(st.binary(min_size=10, max_size=40), min_size=2, max_size=4), "alg": st.sampled_from(["sha1", "sha256", "sha512"]),
         "digits": st.integers(6, 10), "period": st.sampled_from([1, 30, 60]), "times": st.lists(st.integers(0, 1 << 34), min_size=1, max_size=3),
